@@ -246,6 +246,8 @@ def _always_returns(stmts):
         return True
     if isinstance(last, ast.If):
         return _always_returns(last.body) and _always_returns(last.orelse)
+    if isinstance(last, ast.With):
+        return _always_returns(last.body)
     return False
 
 
@@ -289,6 +291,16 @@ def _returns_to_assign(stmts, target):
                 return None
             new.body = body or [ast.copy_location(ast.Pass(), s)]
             new.orelse = orelse
+            out.append(new)
+            return out
+        if isinstance(s, ast.With) and any(isinstance(n, ast.Return) for n in ast.walk(s)) and _always_returns(s.body):
+            # `with cm: ...; return v` as the last thing the block does: the value is computed inside the block, the context manager
+            # exits, the value is delivered -- the same as binding it inside and handing it on after the block
+            inner = _returns_to_assign(s.body, target)
+            if inner is None:
+                return None
+            new = copy.copy(s)
+            new.body = inner or [ast.copy_location(ast.Pass(), s)]
             out.append(new)
             return out
         if any(isinstance(n, ast.Return) for n in ast.walk(s)):
@@ -681,6 +693,10 @@ def _split_simple_statements(stmts):
             for t in s.targets:
                 out.append(ast.copy_location(ast.Assign(targets=[t], value=copy.deepcopy(s.value)), s))
             continue
+        if isinstance(s, ast.Assign) and len(s.targets) == 2 and isinstance(s.targets[1], ast.Name) and isinstance(s.targets[0], ast.Attribute) \
+                and isinstance(s.targets[0].value, ast.Name):
+            # `self.x = a = v`: the same two bindings, written with the attribute first
+            s = ast.copy_location(ast.Assign(targets=[s.targets[1], s.targets[0]], value=s.value), s)
         if isinstance(s, ast.Assign) and len(s.targets) == 2 and isinstance(s.targets[0], ast.Name) and isinstance(s.targets[1], ast.Attribute) \
                 and isinstance(s.targets[1].value, ast.Name):
             # `a = self.x = v`  ->  `self.x = v; a = self.x`   (a plain instance attribute reads back what was stored)
@@ -689,6 +705,34 @@ def _split_simple_statements(stmts):
             load = ast.copy_location(ast.Attribute(value=copy.deepcopy(t_attr.value), attr=t_attr.attr, ctx=ast.Load()), s)
             out.append(ast.copy_location(ast.Assign(targets=[s.targets[0]], value=load), s))
             continue
+        if isinstance(s, ast.Assign) and len(s.targets) == 1 and isinstance(s.targets[0], (ast.Tuple, ast.List)) \
+                and isinstance(s.value, (ast.Tuple, ast.List)) and len(s.targets[0].elts) == len(s.value.elts) \
+                and any(isinstance(t, ast.Attribute) for t in s.targets[0].elts) \
+                and all(isinstance(t, ast.Name) or (isinstance(t, ast.Attribute) and isinstance(t.value, ast.Name)) for t in s.targets[0].elts) \
+                and not any(isinstance(v, ast.Starred) for v in s.value.elts):
+            # `self.a, self.b, x = u, v, w`: in order, when no right-hand side can observe an earlier target: it neither names it nor
+            # calls a method of (or passes) the object whose attribute was just stored
+            keys = [t.id if isinstance(t, ast.Name) else "%s.%s" % (t.value.id, t.attr) for t in s.targets[0].elts]
+            objs = [None if isinstance(t, ast.Name) else t.value.id for t in s.targets[0].elts]
+
+            def observes(v, upto):
+                seen_keys, seen_objs = set(keys[:upto]), {o for o in objs[:upto] if o}
+                for n in ast.walk(v):
+                    if isinstance(n, ast.Name) and n.id in seen_keys:
+                        return True
+                    if isinstance(n, ast.Attribute) and isinstance(n.value, ast.Name) and "%s.%s" % (n.value.id, n.attr) in seen_keys:
+                        return True
+                    if isinstance(n, ast.Call):
+                        f = n.func
+                        if isinstance(f, ast.Attribute) and isinstance(f.value, ast.Name) and f.value.id in seen_objs:
+                            return True          # a method of the object may read the attribute
+                        if any(isinstance(a, ast.Name) and a.id in seen_objs for a in list(n.args) + [k.value for k in n.keywords]):
+                            return True
+                return False
+            if len(set(keys)) == len(keys) and not any(observes(v, j) for j, v in enumerate(s.value.elts)):
+                for t, v in zip(s.targets[0].elts, s.value.elts):
+                    out.append(ast.copy_location(ast.Assign(targets=[t], value=v), s))
+                continue
         if isinstance(s, ast.Assign) and len(s.targets) == 1 and isinstance(s.targets[0], (ast.Tuple, ast.List)) \
                 and isinstance(s.value, (ast.Tuple, ast.List)) and len(s.targets[0].elts) == len(s.value.elts) \
                 and all(isinstance(t, ast.Name) for t in s.targets[0].elts) and not any(isinstance(v, ast.Starred) for v in s.value.elts):
@@ -1002,6 +1046,8 @@ def _static_expand(fn, consts):
     attribute accesses; `**{'k': v, ...}` becomes keywords.  (What a table-driven save/load does, written out.)"""
     changed = [0]
 
+    local_tables_ref = [None]
+
     def unroll_stmts(stmts):
         out = []
         for s in stmts:
@@ -1035,12 +1081,46 @@ def _static_expand(fn, consts):
                 return self.visit(ast.copy_location(make([c for c in consts[g.iter.id]], g.target.id), n))
             return n
 
+        def visit_ListComp(self, n):
+            # `[f(a[i]) for i, f in enumerate(TABLE)]` / `[g(x) for x in TABLE]` with TABLE a module constant, a local constant table
+            # or a literal display of at most 8 rows: the display of its elements
+            r = self.comp(n, lambda cs, v: ast.List(elts=[_ConstSubst(v, c).visit(copy.deepcopy(n.elt)) for c in cs], ctx=ast.Load()))
+            if r is not n or len(n.generators) != 1 or n.generators[0].ifs or n.generators[0].is_async:
+                return r
+            g = n.generators[0]
+            it, enum = g.iter, False
+            if isinstance(it, ast.Call) and isinstance(it.func, ast.Name) and it.func.id == "enumerate" and len(it.args) == 1 and not it.keywords:
+                it, enum = it.args[0], True
+            lt = local_tables_ref[0] or {}
+            rows = consts.get(it.id) if isinstance(it, ast.Name) and it.id in consts else \
+                lt.get(it.id) if isinstance(it, ast.Name) and it.id in lt else \
+                list(it.elts) if isinstance(it, (ast.Tuple, ast.List)) and 0 < len(it.elts) <= 8 and all(
+                    isinstance(e, (ast.Constant, ast.Name, ast.Attribute)) for e in it.elts) else None
+            if rows is None or len(rows) > 8:
+                return n
+            tg = g.target
+            if enum:
+                if not (isinstance(tg, (ast.Tuple, ast.List)) and len(tg.elts) == 2 and all(isinstance(t, ast.Name) for t in tg.elts)):
+                    return n
+                names = [tg.elts[0].id, tg.elts[1].id]
+                vals = [[ast.Constant(value=i), r_] for i, r_ in enumerate(rows)]
+            elif isinstance(tg, ast.Name):
+                names = [tg.id]
+                vals = [[r_] for r_ in rows]
+            else:
+                return n
+            elts = []
+            for vs in vals:
+                e = copy.deepcopy(n.elt)
+                for nm, v in zip(names, vs):
+                    e = _ConstSubst(nm, v).visit(e)
+                elts.append(e)
+            changed[0] += 1
+            return ast.copy_location(ast.List(elts=elts, ctx=ast.Load()), n)
+
         def visit_DictComp(self, n):
             return self.comp(n, lambda cs, v: ast.Dict(keys=[_ConstSubst(v, c).visit(copy.deepcopy(n.key)) for c in cs],
                                                        values=[_ConstSubst(v, c).visit(copy.deepcopy(n.value)) for c in cs]))
-
-        def visit_ListComp(self, n):
-            return self.comp(n, lambda cs, v: ast.List(elts=[_ConstSubst(v, c).visit(copy.deepcopy(n.elt)) for c in cs], ctx=ast.Load()))
 
         def visit_Call(self, c):
             # any(f(x) for x in TABLE) / all(...)  ->  f(a) or f(b) or ...   (same evaluation order, same short circuit, same truth value)
@@ -1076,7 +1156,13 @@ def _static_expand(fn, consts):
     # local table: a single-assignment tuple display of rows built from constants and names the function never rebinds
     from .model import single_assignments
     stored_names = {n.id for n in ast.walk(fn) if isinstance(n, ast.Name) and isinstance(n.ctx, (ast.Store, ast.Del))}
-    stored_names |= {a.arg for a in fn.args.args + fn.args.kwonlyargs}
+    # (a parameter the body never rebinds denotes one object for the whole call; an attribute of it is stable when the function
+    # stores to no attribute of that name and calls nothing on the object in between is not tracked: rows are read once, at the loop)
+    stored_attrs_ = {n.attr for n in ast.walk(fn) if isinstance(n, ast.Attribute) and isinstance(n.ctx, (ast.Store, ast.Del))}
+    stored_attrs_ |= {c.args[1].value for c in ast.walk(fn) if isinstance(c, ast.Call) and isinstance(c.func, ast.Name) and c.func.id == "setattr"
+                      and len(c.args) == 3 and isinstance(c.args[1], ast.Constant) and isinstance(c.args[1].value, str)}
+    dyn_setattr = any(isinstance(c, ast.Call) and isinstance(c.func, ast.Name) and c.func.id == "setattr" and len(c.args) == 3
+                      and not isinstance(c.args[1], ast.Constant) for c in ast.walk(fn))
 
     def stable_expr(x):
         if isinstance(x, ast.Constant):
@@ -1084,8 +1170,10 @@ def _static_expand(fn, consts):
         if isinstance(x, ast.Name):
             return x.id not in stored_names
         if isinstance(x, ast.Attribute):
-            return stable_expr(x.value)
-        if isinstance(x, (ast.Tuple, ast.List)):
+            return stable_expr(x.value) and x.attr not in stored_attrs_
+        if isinstance(x, ast.Tuple):
+            # (a list / dict / set display is a fresh MUTABLE object: substituting the display for a name that denotes it would create
+            # a new object at every use -- only immutable displays are rows or row elements)
             return all(stable_expr(y) for y in x.elts)
         return False
     local_tables = {}
@@ -1124,8 +1212,8 @@ def _static_expand(fn, consts):
                 return x.id not in body_stores
             if isinstance(x, ast.Attribute):
                 return ok(x.value)
-            if isinstance(x, (ast.Tuple, ast.List)):
-                return all(ok(y) for y in x.elts)
+            if isinstance(x, ast.Tuple):
+                return all(ok(y) for y in x.elts)          # immutable displays only (see stable_expr)
             return False
         if all(ok(r) for r in it.elts) and all(isinstance(r, (ast.Tuple, ast.Constant, ast.Name, ast.Attribute)) for r in it.elts):
             return list(it.elts)
@@ -1141,6 +1229,39 @@ def _static_expand(fn, consts):
                 if hasattr(s_, fld) and isinstance(getattr(s_, fld), list):
                     setattr(s_, fld, unroll_table_loops(getattr(s_, fld)))
             rows_ = None
+            # a search loop over a table: `for t, f in ROWS: if C(t): BODY; break` [`else: ELSE`]  ==  if C(t1): BODY1 elif C(t2): ... [else: ELSE]
+            if isinstance(s_, ast.For) and len(s_.body) == 1 and isinstance(s_.body[0], ast.If) and not s_.body[0].orelse \
+                    and s_.body[0].body and isinstance(s_.body[0].body[-1], ast.Break) \
+                    and not any(isinstance(x, (ast.Break, ast.Continue)) for b in s_.body[0].body[:-1] for x in ast.walk(b)) \
+                    and _pure_expr(s_.body[0].test):
+                srows = local_tables.get(s_.iter.id) if isinstance(s_.iter, ast.Name) else inline_rows(s_)
+                tg = s_.target
+                names = [tg.id] if isinstance(tg, ast.Name) else [e_.id for e_ in tg.elts] if isinstance(tg, (ast.Tuple, ast.List)) and all(isinstance(e_, ast.Name) for e_ in tg.elts) else None
+                stores_in_body = {x.id for b in s_.body for x in ast.walk(b) if isinstance(x, ast.Name) and isinstance(x.ctx, (ast.Store, ast.Del))}
+                later_use = False        # the loop variables must not be read after the loop (they would hold the matching row)
+                if srows and names and not (set(names) & stores_in_body) and 0 < len(srows) <= 8 and all(
+                        (len(names) == 1 and isinstance(tg, ast.Name)) or (isinstance(r, ast.Tuple) and len(r.elts) == len(names)) for r in srows):
+                    after = False
+                    for x in ast.walk(fn):
+                        pass
+                    following = stmts[stmts.index(s_) + 1:] if s_ in stmts else []
+                    later_use = any(isinstance(x, ast.Name) and x.id in names for st_ in following for x in ast.walk(st_))
+                    if not later_use:
+                        node = None
+                        orelse = list(s_.orelse)
+                        for r in reversed(srows):
+                            vals = [r] if isinstance(tg, ast.Name) else list(r.elts)
+                            inner = copy.deepcopy(s_.body[0])
+                            inner.body = inner.body[:-1] or [ast.copy_location(ast.Pass(), s_)]
+                            for nm, val in zip(names, vals):
+                                inner = _ConstSubst(nm, val).visit(inner)
+                            inner.orelse = orelse
+                            node = inner
+                            orelse = [node]
+                        ast.fix_missing_locations(node)
+                        out.append(node)
+                        changed[0] += 1
+                        continue
             if isinstance(s_, ast.For) and not s_.orelse:
                 rows_ = local_tables.get(s_.iter.id) if isinstance(s_.iter, ast.Name) else inline_rows(s_)
             if rows_ is not None and any(isinstance(x, (ast.Break, ast.Continue)) for x in ast.walk(s_)):
@@ -1167,6 +1288,7 @@ def _static_expand(fn, consts):
                     continue
             out.append(s_)
         return out
+    local_tables_ref[0] = local_tables
     if local_tables or any(isinstance(x, ast.For) and isinstance(x.iter, (ast.Tuple, ast.List)) for x in ast.walk(fn)):
         fn.body = unroll_table_loops(fn.body)
     fn.body = unroll_stmts(fn.body)
@@ -1557,6 +1679,11 @@ class _FoldDisplays(ast.NodeTransformer):
                         elts.append(S().visit(e))
                     mk = ast.Tuple if c.func.id == "tuple" else ast.List
                     return ast.copy_location(mk(elts=elts, ctx=ast.Load()), c)
+        # tuple([a, b]) / list((a, b)) / tuple((a, b)) -> the display itself
+        if isinstance(c.func, ast.Name) and c.func.id in ("tuple", "list") and len(c.args) == 1 and not c.keywords \
+                and isinstance(c.args[0], (ast.Tuple, ast.List)) and not any(isinstance(e, ast.Starred) for e in c.args[0].elts):
+            mk = ast.Tuple if c.func.id == "tuple" else ast.List
+            return ast.copy_location(mk(elts=list(c.args[0].elts), ctx=ast.Load()), c)
         # g(*(a, b), c) -> g(a, b, c)
         if any(isinstance(a, ast.Starred) and isinstance(a.value, (ast.Tuple, ast.List)) and not any(isinstance(e, ast.Starred) for e in a.value.elts)
                for a in c.args):
@@ -1574,6 +1701,24 @@ class _FoldDisplays(ast.NodeTransformer):
                     and not isinstance(a.value.args[0], (ast.GeneratorExp, ast.ListComp)):
                 a.value = a.value.args[0]
         return c
+
+    def visit_ListComp(self, n):
+        # `[f(i) for i in range(3)]` -> `[f(0), f(1), f(2)]`
+        self.generic_visit(n)
+        if len(n.generators) != 1:
+            return n
+        g = n.generators[0]
+        it = g.iter
+        if isinstance(g.target, ast.Name) and not g.ifs and not g.is_async and isinstance(it, ast.Call) and isinstance(it.func, ast.Name) \
+                and it.func.id == "range" and not it.keywords and 1 <= len(it.args) <= 2 \
+                and all(isinstance(a, ast.Constant) and isinstance(a.value, int) and not isinstance(a.value, bool) for a in it.args):
+            vals = list(range(*[a.value for a in it.args]))
+            if len(vals) <= 8:
+                elts = []
+                for v in vals:
+                    elts.append(_ConstSubst(g.target.id, ast.Constant(value=v)).visit(copy.deepcopy(n.elt)))
+                return ast.copy_location(ast.List(elts=elts, ctx=ast.Load()), n)
+        return n
 
     def visit_Assign(self, a):
         # `x, y, z = (f(i) for i in range(3))`: unpacking consumes the generator exactly like tuple(...) does
@@ -1751,6 +1896,10 @@ class _PruneConstantIfs(ast.NodeTransformer):
     def visit_If(self, node):
         self.generic_visit(node)
         t = node.test
+        # `not True` / `not False` / `not None` (a selector constant substituted into a copied continuation)
+        while isinstance(t, ast.UnaryOp) and isinstance(t.op, ast.Not) and isinstance(t.operand, ast.Constant) \
+                and (isinstance(t.operand.value, (bool, int)) or t.operand.value is None) and not isinstance(t.operand.value, str):
+            t = node.test = ast.copy_location(ast.Constant(value=not t.operand.value), t)
         # `None is None` / `None is not None` (a default argument substituted into an inlined helper)
         if isinstance(t, ast.Compare) and len(t.ops) == 1 and isinstance(t.left, ast.Constant) and isinstance(t.comparators[0], ast.Constant) \
                 and isinstance(t.ops[0], (ast.Is, ast.IsNot)) and (t.left.value is None or t.comparators[0].value is None):
@@ -2030,6 +2179,42 @@ def _ndindex_loops(tree):
                 return body[0]
             return n
     T().visit(tree)
+
+    # `for b in range(A * B): r, c = divmod(b, B); BODY` (b used nowhere else): the same row-major nest
+    class D(ast.NodeTransformer):
+        def visit_For(self, n):
+            self.generic_visit(n)
+            it = n.iter
+            if not (isinstance(it, ast.Call) and isinstance(it.func, ast.Name) and it.func.id == "range" and len(it.args) == 1 and not it.keywords
+                    and isinstance(it.args[0], ast.BinOp) and isinstance(it.args[0].op, ast.Mult) and isinstance(n.target, ast.Name) and not n.orelse and n.body):
+                return n
+            first = n.body[0]
+            if not (isinstance(first, ast.Assign) and len(first.targets) == 1 and isinstance(first.targets[0], (ast.Tuple, ast.List))
+                    and len(first.targets[0].elts) == 2 and all(isinstance(t, ast.Name) for t in first.targets[0].elts)
+                    and isinstance(first.value, ast.Call) and isinstance(first.value.func, ast.Name) and first.value.func.id == "divmod"
+                    and len(first.value.args) == 2 and isinstance(first.value.args[0], ast.Name) and first.value.args[0].id == n.target.id):
+                return n
+            a, b = it.args[0].left, it.args[0].right
+            simple = lambda x: isinstance(x, (ast.Name, ast.Constant)) or (isinstance(x, ast.Attribute) and simple(x.value)) or \
+                (isinstance(x, ast.Call) and isinstance(x.func, ast.Name) and x.func.id == "int" and len(x.args) == 1 and not x.keywords and simple(x.args[0]))
+            if not (simple(a) and simple(b) and ast.dump(first.value.args[1]) == ast.dump(b)):
+                return n
+            rest = n.body[1:]
+            uses = [x for st in rest for x in ast.walk(st) if isinstance(x, ast.Name) and x.id == n.target.id]
+            stores = {x.id for st in rest for x in ast.walk(st) if isinstance(x, ast.Name) and isinstance(x.ctx, (ast.Store, ast.Del))}
+            names_ab = {x.id for e in (a, b) for x in ast.walk(e) if isinstance(x, ast.Name)}
+            if uses or not rest or (stores & (names_ab | {t.id for t in first.targets[0].elts})) \
+                    or any(isinstance(x, ast.Break) for st in rest for x in ast.walk(st)):
+                return n
+            r, c = first.targets[0].elts
+            inner = ast.For(target=c, iter=ast.Call(func=ast.Name(id="range", ctx=ast.Load()), args=[copy.deepcopy(b)], keywords=[]), body=rest, orelse=[], type_comment=None)
+            outer = ast.For(target=r, iter=ast.Call(func=ast.Name(id="range", ctx=ast.Load()), args=[copy.deepcopy(a)], keywords=[]), body=[inner], orelse=[], type_comment=None)
+            ast.copy_location(inner, n)
+            ast.copy_location(outer, n)
+            ast.fix_missing_locations(outer)
+            count[0] += 1
+            return outer
+    D().visit(tree)
     return count[0]
 
 
@@ -2063,6 +2248,213 @@ def _eliminate_loop_continues(fn):
             if isinstance(st, (ast.For, ast.While)):
                 st.body = fix_body(st.body)
     visit(fn.body)
+    return count[0]
+
+
+def _hoist_class_constants(tree):
+    """A class-level constant (`_ARRAYS = ("a", "b")`, `_P_MIN = 7`, `_MSG = "..."`) that nothing in the module ever stores to is
+    read as a module-level constant `Class__NAME`: `self.NAME` / `cls.NAME` / `Class.NAME` loads inside the class's own methods
+    (and `Class.NAME` anywhere in the module) are replaced by that name.  Only literal tuples/lists of literals and scalar literals;
+    subclasses that rebind the name disqualify it."""
+    count = 0
+    classes = [c for c in tree.body if isinstance(c, ast.ClassDef)]
+    stored_attrs = {n.attr for n in ast.walk(tree) if isinstance(n, ast.Attribute) and isinstance(n.ctx, (ast.Store, ast.Del))}
+    setattr_names = {c.args[1].value for c in ast.walk(tree) if isinstance(c, ast.Call) and isinstance(c.func, ast.Name) and c.func.id in ("setattr", "delattr")
+                     and len(c.args) >= 2 and isinstance(c.args[1], ast.Constant)}
+    dyn = any(isinstance(c, ast.Call) and isinstance(c.func, ast.Name) and c.func.id in ("setattr", "delattr") and len(c.args) >= 2
+              and not isinstance(c.args[1], ast.Constant) for c in ast.walk(tree))
+    if dyn:
+        return 0
+
+    def lit(v):
+        if isinstance(v, ast.Constant) and isinstance(v.value, (str, int, float)) and not isinstance(v.value, bool):
+            return True
+        if isinstance(v, (ast.Tuple, ast.List)) and v.elts:
+            return all(lit(e) or (isinstance(e, (ast.Tuple, ast.List)) and all(lit(x) for x in e.elts)) for e in v.elts)
+        return False
+    new_defs = []
+    for c in classes:
+        for st in list(c.body):
+            if not (isinstance(st, ast.Assign) and len(st.targets) == 1 and isinstance(st.targets[0], ast.Name) and lit(st.value)):
+                continue
+            name = st.targets[0].id
+            if name in stored_attrs or name in setattr_names or name.startswith("__"):
+                continue
+            # bound once in this class, not rebound in any other class of the module, no method parameter/local of that name matters
+            binds = [x for k in classes for x in k.body if isinstance(x, ast.Assign) and any(isinstance(t, ast.Name) and t.id == name for t in x.targets)]
+            if len(binds) != 1:
+                continue
+            subs = {k.name for k in classes if k is c or any(isinstance(b, ast.Name) and b.id == c.name for b in k.bases)}
+            # transitive subclasses
+            grew = True
+            while grew:
+                grew = False
+                for k in classes:
+                    if k.name not in subs and any(isinstance(b, ast.Name) and b.id in subs for b in k.bases):
+                        subs.add(k.name)
+                        grew = True
+            gname = "%s__%s" % (c.name, name.strip("_"))
+
+            class T(ast.NodeTransformer):
+                def __init__(self, in_cls):
+                    self.in_cls = in_cls
+                    self.n = 0
+
+                def visit_Attribute(self, a):
+                    self.generic_visit(a)
+                    if a.attr == name and isinstance(a.ctx, ast.Load) and isinstance(a.value, ast.Name) and (
+                            (self.in_cls and a.value.id in ("self", "cls")) or a.value.id in subs):
+                        self.n += 1
+                        return ast.copy_location(ast.Name(id=gname, ctx=ast.Load()), a)
+                    return a
+            n_here = 0
+            for k in classes:
+                t = T(k.name in subs)
+                for m in k.body:
+                    if isinstance(m, ast.FunctionDef):
+                        t.visit(m)
+                n_here += t.n
+            t = T(False)
+            for m in tree.body:
+                if isinstance(m, ast.FunctionDef):
+                    t.visit(m)
+            n_here += t.n
+            if n_here:
+                new_defs.append(ast.copy_location(ast.Assign(targets=[ast.Name(id=gname, ctx=ast.Store())], value=copy.deepcopy(st.value)), st))
+                count += n_here
+    if new_defs:
+        # after the imports, before everything else
+        i = 0
+        while i < len(tree.body) and (isinstance(tree.body[i], (ast.Import, ast.ImportFrom)) or
+                                      (isinstance(tree.body[i], ast.Expr) and isinstance(tree.body[i].value, ast.Constant))):
+            i += 1
+        tree.body[i:i] = new_defs
+        ast.fix_missing_locations(tree)
+    return count
+
+
+def _canonicalise_counter_whiles(fn):
+    """Counter while-loops are brought to the one spelling the walkers read as a range loop, `while i < n: BODY; i += 1`:
+    a unit increment that is the FIRST statement of the body moves to the end when the body never reads the counter (a pure trip
+    counter); a test `i < n and REST` (counter comparison first) becomes `while i < n:` with `if not REST: break` as the first
+    statement.  Nothing else is touched."""
+    count = [0]
+
+    def unit_inc(st, var):
+        if isinstance(st, ast.AugAssign) and isinstance(st.op, ast.Add) and isinstance(st.target, ast.Name) and st.target.id == var:
+            v = st.value
+        elif isinstance(st, ast.Assign) and len(st.targets) == 1 and isinstance(st.targets[0], ast.Name) and st.targets[0].id == var \
+                and isinstance(st.value, ast.BinOp) and isinstance(st.value.op, ast.Add):
+            l, r = st.value.left, st.value.right
+            v = r if isinstance(l, ast.Name) and l.id == var else l if isinstance(r, ast.Name) and r.id == var else None
+        else:
+            return False
+        while isinstance(v, ast.Call) and len(v.args) == 1 and not v.keywords:
+            v = v.args[0]
+        return isinstance(v, ast.Constant) and v.value == 1 and not isinstance(v.value, bool)
+
+    def cmp_var(t):
+        if isinstance(t, ast.Compare) and len(t.ops) == 1:
+            if isinstance(t.ops[0], (ast.Lt, ast.LtE)) and isinstance(t.left, ast.Name):
+                return t.left.id
+            if isinstance(t.ops[0], (ast.Gt, ast.GtE)) and isinstance(t.comparators[0], ast.Name):
+                return t.comparators[0].id
+        return None
+
+    def visit(stmts):
+        for st in stmts:
+            if isinstance(st, (ast.FunctionDef, ast.AsyncFunctionDef, ast.ClassDef)):
+                continue
+            for fld in ("body", "orelse", "finalbody"):
+                blk = getattr(st, fld, None)
+                if isinstance(blk, list):
+                    visit(blk)
+            if isinstance(st, ast.Try):
+                for h in st.handlers:
+                    visit(h.body)
+            if not isinstance(st, ast.While) or st.orelse or not st.body:
+                continue
+            t = st.test
+            rest = None
+            if isinstance(t, ast.BoolOp) and isinstance(t.op, ast.And) and cmp_var(t.values[0]) is not None and all(_pure_expr(v) for v in t.values[1:]):
+                var = cmp_var(t.values[0])
+                rest = t.values[1:]
+            else:
+                var = cmp_var(t)
+            if var is None:
+                continue
+            incs = [b for b in st.body if unit_inc(b, var)]
+            other_stores = [x for b in st.body if b not in incs for x in ast.walk(b) if isinstance(x, ast.Name) and x.id == var and isinstance(x.ctx, (ast.Store, ast.Del))]
+            if len(incs) != 1 or other_stores or any(isinstance(x, ast.Continue) for b in st.body for x in ast.walk(b)):
+                continue
+            inc = incs[0]
+            if inc is st.body[0] and len(st.body) > 1:
+                reads = [x for b in st.body[1:] for x in ast.walk(b) if isinstance(x, ast.Name) and x.id == var]
+                if reads:
+                    continue
+                st.body = st.body[1:] + [inc]
+                count[0] += 1
+            elif inc is not st.body[-1]:
+                continue
+            if rest is not None:
+                # the bound names of REST must not be ... (REST is re-evaluated at the top of every iteration in both spellings)
+                neg = ast.UnaryOp(op=ast.Not(), operand=rest[0] if len(rest) == 1 else ast.BoolOp(op=ast.And(), values=rest))
+                guard = ast.copy_location(ast.If(test=neg, body=[ast.copy_location(ast.Break(), st)], orelse=[]), st)
+                st.test = t.values[0]
+                st.body = [guard] + st.body
+                ast.fix_missing_locations(st)
+                count[0] += 1
+    visit(fn.body)
+    return count[0]
+
+
+def _drop_dead_pure_stores(fn):
+    """`name = <pure expression>` whose name is read nowhere in the function (what copy propagation leaves behind): removed, so that
+    the statements around it are adjacent again.  Python-level functions only; parameters and names used in nested scopes are kept."""
+    loads = {}
+    for n in ast.walk(fn):
+        if isinstance(n, ast.Name) and isinstance(n.ctx, (ast.Load, ast.Del)):
+            loads[n.id] = loads.get(n.id, 0) + 1
+        elif isinstance(n, (ast.Global, ast.Nonlocal)):
+            return 0
+        elif isinstance(n, ast.Call) and isinstance(n.func, ast.Name) and n.func.id in ("locals", "vars", "eval", "exec"):
+            return 0
+    count = [0]
+
+    def simple_pure(v):
+        if isinstance(v, (ast.Constant, ast.Name)):
+            return True
+        if isinstance(v, ast.Attribute):
+            return simple_pure(v.value)
+        if isinstance(v, (ast.Tuple, ast.List)):
+            return all(simple_pure(e) for e in v.elts)
+        if isinstance(v, ast.Call) and isinstance(v.func, ast.Name) and v.func.id in ("int", "float", "len", "bool") and len(v.args) == 1 and not v.keywords:
+            return simple_pure(v.args[0])
+        if isinstance(v, ast.BinOp):
+            return simple_pure(v.left) and simple_pure(v.right)
+        return False
+
+    def block(stmts):
+        out = []
+        for st in stmts:
+            if isinstance(st, (ast.FunctionDef, ast.AsyncFunctionDef, ast.ClassDef)):
+                out.append(st)
+                continue
+            for fld in ("body", "orelse", "finalbody"):
+                blk = getattr(st, fld, None)
+                if isinstance(blk, list):
+                    nb = block(blk)
+                    setattr(st, fld, nb if nb or fld != "body" else [ast.copy_location(ast.Pass(), st)])
+            if isinstance(st, ast.Try):
+                for h in st.handlers:
+                    h.body = block(h.body) or [ast.copy_location(ast.Pass(), h)]
+            if isinstance(st, ast.Assign) and len(st.targets) == 1 and isinstance(st.targets[0], ast.Name) and not loads.get(st.targets[0].id) \
+                    and simple_pure(st.value):
+                count[0] += 1
+                continue
+            out.append(st)
+        return out
+    fn.body = block(fn.body) or [ast.copy_location(ast.Pass(), fn)]
     return count[0]
 
 
@@ -2145,6 +2537,7 @@ def _unroll_const_tuple_loops(fn):
 
 
 def normalize(tree):
+    _hoist_class_constants(tree)
     _MODULE_STABLE.clear()
     _MODULE_STABLE.update(_module_stable_names(tree))
     _MODULE_DEFS.clear()
@@ -2177,13 +2570,13 @@ def normalize(tree):
         if isinstance(node, ast.FunctionDef):
             _fuse_row_views(node)
         if isinstance(node, ast.FunctionDef) and _is_njit(node):
+            _canonicalise_counter_whiles(node)
             _unroll_const_tuple_loops(node)
             node.body = _split_simple_statements(node.body)       # statement forms only; kernels are otherwise read by the walker
         if isinstance(node, ast.FunctionDef) and not _is_njit(node):
             _eliminate_loop_continues(node)
             node.body = _split_simple_statements(node.body)
-            if consts:
-                _static_expand(node, consts)
+            ch_first = _static_expand(node, consts) if consts else 0
             if all(_is_bare_return(r) for r in ast.walk(node) if isinstance(r, ast.Return)) and \
                     not any(isinstance(x, (ast.FunctionDef, ast.Lambda)) and x is not node for x in ast.walk(node)):
                 node.body = _eliminate_early_returns(node.body)
@@ -2195,12 +2588,13 @@ def normalize(tree):
             for _ in range(3):
                 if not _propagate_copies(node):
                     break
+            _drop_dead_pure_stores(node)
             for _ in range(3):
                 node.body, c = _inline_adjacent_single_use(node.body, _name_uses(node))
                 if not c:
                     break
             _FoldDisplays().visit(node)       # displays exposed by the propagation (`*tuple(xs)`, `(a, b) + (c,)`)
-            if _static_expand(node, consts):  # getattr(x, 'lit') / **{...} / unrolled table loops exposed by the propagation
+            if _static_expand(node, consts) + ch_first:  # getattr(x, 'lit') / **{...} / unrolled table loops exposed by the propagation
                 # what the unrolling exposed: `d = {...}; d["k"] = v` item stores, `a, b = u, v`, a dict display used once as `**d`
                 _merge_dict_item_stores(node.body)
                 node.body = _split_simple_statements(node.body)
